@@ -200,6 +200,84 @@ def to_ast(x):
     return ('g', x[1], x[2], x[3], [to_ast(i) for i in x[4]])
 
 
+NSMAP = {'t': cm.TNS, 'o': cm.ONS}
+
+
+def encoder_family(ctx: Ctx, drv: Optional[Driver], n_models: int, known_fid: str = 'C05-F10') -> None:
+    """Correspondence of the encoder's child loop (XsdGroup.raw_encode) with its Lean port
+    (`encodeErrors`) and the C05 clause "strict encode returns only XML the same schema accepts" on the
+    real code: for (model, word) the data ['t:mK', ['t:a','x'], ...] is encoded in lax mode with the
+    lossless JsonML converter; the children errors (index, particle, occurs) are compared with the port;
+    when encoding reports no error at all the returned element must be valid."""
+    import xmlschema
+    from xmlschema.validators.exceptions import XMLSchemaChildrenValidationError
+    rng = ctx.rng
+    for v11 in (False, True):
+        models = [cm.random_model(rng, ['a', 'b', 'c', 'h'], v11=v11, max_depth=2) for _ in range(n_models)]
+        models += [cm.random_small(rng, 2, ['a', 'b']) for _ in range(n_models)]
+        models += [('g', 'choice', 1, 1, []), ('g', 'choice', 0, 1, []), ('g', 'sequence', 1, 1, [])]
+        for i in range(0, len(models), 40):
+            batch = models[i:i + 40]
+            schema = cm.build_schema(batch, v11)
+            reqs, pend = [], []
+            for k, ast in enumerate(batch):
+                xe = schema.elements[f'm{k}']
+                group = xe.type.content
+                if xe.type.errors or group.errors or any(c.errors for c in group.iter_components()):
+                    continue
+                if cm.upa_ok(ast, v11=v11) is not True:
+                    continue
+                intro = cm.Introspector(group)
+                if intro.glue:
+                    continue
+                ids = {id(o): j for j, o in enumerate(intro.objs)}
+                alpha = [s_ for s_ in cm.alphabet(ast) if s_ != 'q'] or ['a']
+                words = cm.word_set(rng, ast, alpha + ['c'] if 'c' not in alpha else alpha, 2, 5, 12)[:30]
+                impl = []
+                for w in words:
+                    data = [f't:m{k}'] + [[('o:z' if s_ == 'o' else 't:' + cm.SYMS[s_][1]), 'x'] for s_ in w]
+                    try:
+                        elem, errs = schema.encode(data, path=f't:m{k}', converter=xmlschema.JsonMLConverter,
+                                                   validation='lax', namespaces=NSMAP)
+                    except Exception as e:   # noqa
+                        impl.append({'raised': type(e).__name__})
+                        continue
+                    ch = [[e.index, ids.get(id(e.particle), -1), e.occurs] for e in errs
+                          if isinstance(e, XMLSchemaChildrenValidationError)]
+                    other = [type(e).__name__ for e in errs if not isinstance(e, XMLSchemaChildrenValidationError)]
+                    ok = elem is not None and xe.is_valid(elem)
+                    impl.append({'errs': ch, 'other': other, 'valid': ok})
+                reqs.append({'n': len(intro.objs), 'model': intro.json, 'words': [cm.word_json(w) for w in words], 'oc': None})
+                pend.append((ast, words, impl))
+            answers = drv.query(reqs) if drv is not None and reqs else [None] * len(reqs)
+            for (ast, words, impl), ans in zip(pend, answers):
+                for j, w in enumerate(words):
+                    im = impl[j]
+                    case = {'v': '1.1' if v11 else '1.0', 'encode': True, 'model': cm.show(ast), 'ast': ast, 'word': ''.join(w)}
+                    ctx.case(case, bool(w), tag='encode/' + case['v'])
+                    if 'raised' in im:
+                        ctx.count('encode:raised:' + im['raised'])
+                        continue
+                    silent = not im['errs'] and not im['other']
+                    ctx.count('encode:' + ('silent' if silent else 'errors'))
+                    if silent and not im['valid']:
+                        empty_choice = ast[1] == 'choice' and not ast[4] and ast[2] > 0
+                        if empty_choice:
+                            ctx.known_hit(known_fid)
+                        else:
+                            ctx.failure('encode reported no error but the returned element is not valid for the schema',
+                                        case, im)
+                    if ans is None or 'err' in ans:
+                        continue
+                    a = ans['r'][j]
+                    ctx.traces += 1
+                    if a['ef']:
+                        ctx.mismatch('encoder port ran out of fuel', case, im, a)
+                    elif a['ee'] != im['errs'] or a['es'] != silent:
+                        ctx.mismatch('raw_encode child loop port vs implementation', case,
+                                     {'errs': im['errs'], 'silent': silent}, {'errs': a['ee'], 'silent': a['es']})
+
+
 def corpus(ctx: Ctx) -> None:
     """The witnesses of the Lean counter-example theorems, replayed on the real code: each must still
     behave as the theorem says about the port (otherwise the finding changed — information, not alarm:
@@ -241,6 +319,7 @@ def run_parallel(ctx: Ctx, drv: Optional[Driver]) -> None:
 def run(ctx: Ctx, driver_ok: bool) -> None:
     drv = Driver('drv_c01') if driver_ok else None
     corpus(ctx)
+    encoder_family(ctx, drv, ctx.pick(40, 400), known_fid='C05-F10')
     if not ctx.quick():
         run_parallel(ctx, drv)
         return
